@@ -284,13 +284,14 @@ Lemma foldl_mol_edges {A} (f : net → A → option (string * string)) (l : list
   edges (foldl (λ acc x, match f acc x with Some lm => set_mol acc lm.1 lm.2 | None => acc end) s l) = edges s.
 Proof. induction l as [|x l IH]; intros s; [done|]. cbn [foldl]. rewrite IH. by destruct (f s x). Qed.
 
-Lemma species_graph_roundtrip (pick : gset string → string) (default_rule : string) (include_mol mol_attr : bool) (H : net) :
-  two_sided H →
-  (species_graph_to_hypergraph pick default_rule mol_attr (hypergraph_to_species_graph include_mol H)).2 = None ∧
-  stoich_of <$> edges (species_graph_to_hypergraph pick default_rule mol_attr (hypergraph_to_species_graph include_mol H)).1
-    = stoich_of <$> edges H.
+(** the import of ANY graph that carries, for the reactions of [H], the `via` sets and the per-reaction coefficient maps
+    (whatever its legacy values, rule sets, `kind` / `mol` attributes; labels absent or equal to the node id) *)
+Lemma species_graph_import_inv (pick : gset string → string) (default_rule : string) (mol_attr : bool) (H : net) (G : sgraph) :
+  two_sided H → AInv (sg_tuples H) (g_arcs G) → NInv (g_nodes G) →
+  (species_graph_to_hypergraph pick default_rule mol_attr G).2 = None ∧
+  stoich_of <$> edges (species_graph_to_hypergraph pick default_rule mol_attr G).1 = stoich_of <$> edges H.
 Proof.
-  intros H2. destruct (export_inv include_mol H) as [HA HN]. set (G := hypergraph_to_species_graph include_mol H) in *.
+  intros H2 HA HN.
   unfold species_graph_to_hypergraph. rewrite (entries_flat G) by (intros; eapply ai_ne; eauto).
   fold (sg_ents G). cbn [orb].
   pose proof (sg_ents_spec H G HA HN H2) as Hspec. pose proof (sg_ents_dom H G HA HN H2) as Hdom.
@@ -331,6 +332,15 @@ Proof.
     + apply elem_of_list_fmap. by exists (e, ent).
   - rewrite (not_elem_of_list_to_map_1 _ e); [done|]. rewrite rebuilt_fst.
     intros ([e' ent] & -> & Hin)%elem_of_list_fmap. destruct (Hside _ _ Hin) as (rx & Hrx' & _). cbn in Hrx. congruence.
+Qed.
+
+Lemma species_graph_roundtrip (pick : gset string → string) (default_rule : string) (include_mol mol_attr : bool) (H : net) :
+  two_sided H →
+  (species_graph_to_hypergraph pick default_rule mol_attr (hypergraph_to_species_graph include_mol H)).2 = None ∧
+  stoich_of <$> edges (species_graph_to_hypergraph pick default_rule mol_attr (hypergraph_to_species_graph include_mol H)).1
+    = stoich_of <$> edges H.
+Proof.
+  intros H2. destruct (export_inv include_mol H) as [HA HN]. by apply species_graph_import_inv.
 Qed.
 
 (** * non-vacuity *)
